@@ -240,6 +240,17 @@ impl<'tcx> Cx<'tcx> {
                         }
                     }
                 }
+                // a reference to a slice of constants (`const WORDS: &[&str] = &[..]`): show it as the array it points to
+                if let ty::Ref(_, inner, _) = cty.kind() {
+                    if let ty::Slice(elem) = inner.kind() {
+                        if let Some((alloc_id, offset, len)) = slice_parts(tcx, val) {
+                            let arr = Ty::new_array(tcx, *elem, len);
+                            let k = mir::Const::Val(mir::ConstValue::Indirect { alloc_id, offset }, arr);
+                            shown = Some(format!("&{}", with_no_trimmed_paths!(with_crate_prefix!(format!("{k}")))));
+                            o.push(("slice_len", J::Num(len as i128)));
+                        }
+                    }
+                }
                 match shown {
                     Some(s) => s,
                     None => {
@@ -704,4 +715,30 @@ fn dump(tcx: TyCtxt<'_>, dir: &str) {
     let _ = write!(out, "\n");
     let path = format!("{dir}/{krate}.{ctype}.json");
     std::fs::write(&path, out).expect("mirfacts: cannot write fact file");
+}
+
+
+/// (allocation, offset, length) of the data a constant `&[T]` points to
+fn slice_parts<'tcx>(
+    tcx: TyCtxt<'tcx>,
+    val: mir::ConstValue,
+) -> Option<(rustc_middle::mir::interpret::AllocId, rustc_abi::Size, u64)> {
+    use rustc_middle::mir::interpret::{alloc_range, Scalar};
+    match val {
+        mir::ConstValue::Slice { alloc_id, meta } => Some((alloc_id, rustc_abi::Size::ZERO, meta)),
+        mir::ConstValue::Indirect { alloc_id, offset } => {
+            let alloc = tcx.global_alloc(alloc_id).unwrap_memory();
+            let a = alloc.inner();
+            let ps = tcx.data_layout.pointer_size();
+            let ptr = a.read_scalar(&tcx, alloc_range(offset, ps), true).ok()?;
+            let len = a.read_scalar(&tcx, alloc_range(offset + ps, ps), false).ok()?;
+            let len = len.to_target_usize(&tcx).discard_err()?;
+            if let Scalar::Ptr(p, _) = ptr {
+                let (prov, off) = p.prov_and_relative_offset();
+                return Some((prov.alloc_id(), off, len));
+            }
+            None
+        }
+        _ => None,
+    }
 }
